@@ -193,6 +193,35 @@ def subAtoms (p : Pt Q) : Geom Q → Option (List (List Q))
   | .bound lo hi => some ((lineAtoms p (boundRing lo hi)).map fun a => [a])
   | .collection gs => some (gs.map (atoms p))
 
+/-- position of the first element equal to the minimum of the defined elements (exact) -/
+def firstMinIdx? (l : List (Option Q)) : Option Nat :=
+  match minQ? (l.filterMap id) with
+  | none => none
+  | some mn =>
+    (l.zipIdx.foldl (fun (acc : Option Nat) (xi : Option Q × Nat) =>
+      match acc with
+      | some k => some k
+      | none => if xi.1 == some mn then some xi.2 else none) none)
+
+/-- the index the property asks for: the FIRST indexable sub-geometry attaining the minimum, compared exactly on the
+    squared distances (theorems `lineStringDistanceFrom_index`, `multiPointDistanceFrom_index`,
+    `multiLineStringDistanceFrom_index`, `multiPolygonDistanceFrom_index`, `collectionDistanceFrom_index`).
+    A polygon reports the first nearest SEGMENT of its first nearest RING (loop counter shadowed in the code). -/
+def specIndex (p : Pt Q) (g : Geom Q) : Option Int :=
+  match g with
+  | .polygon rs =>
+    (match firstMinIdx? (rs.map fun r => minQ? (lineAtoms p r)) with
+     | none => some (-1)
+     | some k => (match firstMinIdx? ((lineAtoms p (rs.getD k [])).map some) with
+                  | some i => some (i : Int)
+                  | none => none))
+  | g =>
+    (match subAtoms p g with
+     | none => none
+     | some subs => (match firstMinIdx? (subs.map minQ?) with
+                     | some i => some (i : Int)
+                     | none => some (-1)))
+
 /-! ### convexity / nesting tests (exact) -/
 
 def dedupClosed (r : List (Pt Q)) : List (Pt Q) :=
@@ -224,13 +253,22 @@ def bboxQ (r : List (Pt Q)) : Option (Q × Q × Q × Q) :=
 def boxesDisjoint (a b : Q × Q × Q × Q) : Bool :=
   a.2.2.1 < b.1 || b.2.2.1 < a.1 || a.2.2.2 < b.2.1 || b.2.2.2 < a.2.1
 
+/-- no vertex is listed twice (an explicit closing vertex apart) -/
+def distinctVerts (r0 : List (Pt Q)) : Bool :=
+  let r := dedupClosed r0
+  r.zipIdx.all fun (a, i) => r.zipIdx.all fun (b, j) => i ≥ j || !(a == b)
+
 /-- sufficient test for "holes nested in the outer ring and mutually disjoint": convex outer ring,
-    every hole vertex inside it, hole boxes pairwise disjoint -/
+    every hole vertex inside it, hole boxes pairwise disjoint — and every hole of a shape whose |shoelace area| cannot
+    exceed the area of its convex hull: at most four vertices (theorem `ring_small_le_ring`, any quadrilateral or
+    triangle) or convex without a repeated vertex (a simple convex polygon).  Without that last condition the test
+    is unsound: a hole running twice round a triangle has twice its area (`polygon_area_nonneg_full_false`). -/
 def nestedPolygon (p : List (List (Pt Q))) : Bool :=
   match p with
   | [] => false
   | o :: hs =>
-    isConvex o && hs.all (fun h => !h.isEmpty && h.all (inConvex o)) &&
+    isConvex o && hs.all (fun h => !h.isEmpty && h.all (inConvex o) &&
+      ((dedupClosed h).length ≤ 4 || (isConvex h && distinctVerts h))) &&
     (let bs := hs.filterMap bboxQ
      (bs.zipIdx.all fun (a, i) => bs.zipIdx.all fun (b, j) => i ≥ j || boxesDisjoint a b))
 
@@ -251,8 +289,42 @@ partial def hasZeroLenLineMix (g : Geom Q) : Bool :=
   | .collection gs => gs.any hasZeroLenLineMix
   | _ => false
 
-/-- judge `(cx, cy, area)` of the implementation against the exact spec -/
-def judgeCA (gU : Geom UInt64) (gq : Geom Q) (exact : Pt Q × Q) (twin : Option (Pt Q × Q)) (cx cy ar : Q) : String :=
+/-- the centroid of a vertex chain taken AS A LINE (spec side, independent of the model: no origin shift, moments of
+    the consecutive segments): length-weighted mean of the segment midpoints; the first vertex when the length is 0;
+    the origin when there is no vertex -/
+def lineCentroidSpec (l : List (Pt Q)) : Pt Q :=
+  let mo := lineMom l
+  if mo.1 != 0 then ⟨mo.2.1 / mo.1, mo.2.2 / mo.1⟩ else
+  match l with
+  | [] => ⟨0, 0⟩
+  | v :: _ => v
+
+def meanPts (ps : List (Pt Q)) : Pt Q :=
+  match ps with
+  | [] => ⟨0, 0⟩
+  | _ => let s := ptsMom ps; ⟨s.2.1 / s.1, s.2.2 / s.1⟩
+
+/-- what the documented fall-backs answer for a geometry whose total weight (area / length / count, by top
+    dimension) is ZERO — anchored mechanism "degenerate fallback to line centroid" (area.go:193-216) and its
+    relatives: a flat polygon answers the centroid of its OUTER RING AS A LINE; a flat ring its first vertex; lines
+    without length the plain mean of their first vertices; everything weighted over members (multi-polygon,
+    collection) or without a vertex the origin.
+    Theorems: `polygon_degenerate_centroid(_nil)`, `ring_degenerate_centroid`, `mls_centroid_weighted` (L = 0),
+    `multi_degenerate_centroid`, `collection_degenerate_centroid`. -/
+def zeroWeightSpec : Geom Q → Pt Q
+  | .point p => p
+  | .multiPoint _ => ⟨0, 0⟩
+  | .lineString l => meanPts (l.head?.toList)
+  | .multiLineString ls => meanPts (ls.filterMap List.head?)
+  | .ring r => (r.head?).getD ⟨0, 0⟩
+  | .bound lo _ => lo
+  | .polygon p => (match p with | [] => ⟨0, 0⟩ | o :: _ => lineCentroidSpec o)
+  | .multiPolygon _ | .collection _ => ⟨0, 0⟩
+
+/-- judge `(cx, cy, area)` of the implementation against the exact spec; `agree`: the implementation's outcome is
+    bit-for-bit the Float twin's -/
+def judgeCA (gU : Geom UInt64) (gq : Geom Q) (exact : Pt Q × Q) (twin : Option (Pt Q × Q)) (cx cy ar : Q)
+    (agree : Bool) : String :=
   -- rounding sensitivity is a property of the MODEL (Float twin vs. exact instance), never of the implementation's answer
   let twinFar (f : Pt Q × Q → Q) (scale : Q) : Bool := match twin with
     | some t => !(close scale (f t) (f exact))
@@ -278,7 +350,20 @@ def judgeCA (gU : Geom UInt64) (gq : Geom Q) (exact : Pt Q × Q) (twin : Option 
   let nested := match gq with | .polygon p => nestedPolygon p | _ => false
   if nested && ar < 0 then "propfail polygon-area-nonneg-nested" else
   -- centroid
-  if mom.1 == 0 then s!"ok triv-zero-weight {kt}" else
+  if mom.1 == 0 then
+    -- total weight 0: the degenerate fall-backs, judged against their own spec
+    let zs := zeroWeightSpec gq
+    if close m cx zs.x && close m cy zs.y then
+      (match gq with
+       | .polygon (o :: _) => if (lineMom o).1 != 0 then "ok poly-degenerate-line-centroid" else s!"ok triv-zero-weight {kt}"
+       | _ => s!"ok triv-zero-weight {kt}")
+    else if twinFar (·.1.x) m || twinFar (·.1.y) m then "skip rounding-sensitive" else
+    (match gq with
+     | .polygon _ => "propfail centroid-degenerate-line-fallback"
+     | .ring _ | .bound _ _ => s!"propfail centroid-degenerate-first-vertex {kt}"
+     | .lineString _ | .multiLineString _ => s!"propfail centroid-zero-length-mean {kt}"
+     | _ => s!"propfail centroid-zero-weight-origin {kt}")
+  else
   let sc : Pt Q := ⟨mom.2.1 / mom.1, mom.2.2 / mom.1⟩
   let okC := close m cx sc.x && close m cy sc.y
   if okC then
@@ -298,7 +383,10 @@ def judgeCA (gU : Geom UInt64) (gq : Geom Q) (exact : Pt Q × Q) (twin : Option 
     if twinFar (·.1.x) m || twinFar (·.1.y) m then "skip rounding-sensitive" else
     match gq with
     | .collection _ =>
-      if d < 2 && cx == 0 && cy == 0 then s!"propfail centroid-collection-lowerdim dim{d}" else
+      -- the recorded finding, and nothing else: implementation = model (bit for bit), the exact model answers the
+      -- origin as well (`collection_lowerdim_centroid_origin`), and the spec centroid is elsewhere (we are in `!okC`)
+      if d < 2 && cx == 0 && cy == 0 && agree && exact.1.x == 0 && exact.1.y == 0 && exact.2 == 0 then
+        s!"propfail centroid-collection-lowerdim dim{d}" else
       if d == 1 && hasZeroLenLineMix gq then "propfail centroid-zero-length-line-weight coll" else "propfail centroid-weighted-mean coll"
     | .multiLineString _ =>
       if hasZeroLenLineMix gq then "propfail centroid-zero-length-line-weight mline" else "propfail centroid-weighted-mean mline"
@@ -326,7 +414,7 @@ def handleCA (inp out : Toks) : String :=
         (match toQ? gU, tokQ? tcx, tokQ? tcy, tokQ? ta with
          | some gq, some cx, some cy, some ar =>
            let twQ : Option (Pt Q × Q) := do pure (⟨← fQ? tw.1.x, ← fQ? tw.1.y⟩, ← fQ? tw.2)
-           judgeCA gU gq (centroidArea sqrtQ gq) twQ cx cy ar
+           judgeCA gU gq (centroidArea sqrtQ gq) twQ cx cy ar agree
          | none, _, _, _ => "skip non-finite-input"
          | _, _, _, _ => "skip non-finite-output")
       | _ => "bad output"
@@ -359,8 +447,10 @@ def handleRingVar (inp out : Toks) : String :=
     | some (.ring rq), some (.point tq), some vals =>
       let nV := 2 * ((if rq.isEmpty then 1 else rq.length) + 1) + 2
       if vals.length != 3 * nV then "bad output" else
+      -- integer lattice (|v| ≤ 2^20, translate included): areas exactly; otherwise (general-position floats): areas
+      -- and centroids within the quantifier's relative 1e-9, a variant whose Float twin is itself farther than that
+      -- from its exact instance being rounding-sensitive (as in 'ca')
       let intDom := isIntDomain (.ring rU) && isIntDomain (.point tU)
-      if !intDom then "skip non-integer" else
       let m := scaleOf (.ring rq) [tq.x, tq.y] * 2
       let base := ringMom rq
       let triple (i : Nat) : Q × Q × Q := (vals.getD (3 * i) 0, vals.getD (3 * i + 1) 0, vals.getD (3 * i + 2) 0)
@@ -372,25 +462,30 @@ def handleRingVar (inp out : Toks) : String :=
         let isRev := nRot ≤ i && i < nRot + 2
         let isTr := nRot + 2 ≤ i
         let wantA := if isRev then -base.1 else base.1
-        if v.2.2 != wantA then
+        -- Float twin of THIS variant vs. its exact instance (the exact instance translates exactly)
+        let ex := ringCentroidArea (vsQ.getD i [])
+        let twv := ringCentroidArea (vsF.getD i [])
+        let areaBad := if intDom then v.2.2 != wantA else !(close (m * m) v.2.2 wantA)
+        if areaBad then
+          let far := !intDom && (match fQ? twv.2 with
+            | some a => !(close (m * m) a ex.2)
+            | none => true)
           some (if i == 0 then "area-shoelace" else if isRev then "area-reverse-negates" else if isTr then "area-translate" else
-                if i % 2 == 1 then "area-closing" else "area-rotate", false)
+                if i % 2 == 1 then "area-closing" else "area-rotate", far)
         else if base.1 == 0 then none
         else
           let c : Pt Q := ⟨base.2.1 / base.1 + (if isTr then tq.x else 0), base.2.2 / base.1 + (if isTr then tq.y else 0)⟩
           if close m v.1 c.x && close m v.2.1 c.y then none else
-          -- rounding-sensitive?  Float twin of THIS variant vs. its exact instance
-          let ex := ringCentroidArea (vsQ.getD i [])
-          let twv := ringCentroidArea (vsF.getD i [])
           let far := match fQ? twv.1.x, fQ? twv.1.y with
             | some x, some y => !(close m x ex.1.x && close m y ex.1.y)
             | _, _ => true
           some (if isTr then "centroid-translate" else if isRev then "centroid-reverse" else "centroid-rotate", far)
+      let fl := if intDom then "" else "-float"
       match res.find? (fun r => !r.2), res.head? with
       | some (cl, _), _ => s!"propfail {cl}"
       | none, some _ => "skip rounding-sensitive"
-      | none, none => if rq.isEmpty then "ok triv-empty-ring" else if base.1 == 0 then "ok ringvar-zero-area" else
-                if base.1 < 0 then "ok ringvar-cw" else "ok ringvar-ccw"
+      | none, none => if rq.isEmpty then "ok triv-empty-ring" else if base.1 == 0 then s!"ok ringvar-zero-area{fl}" else
+                if base.1 < 0 then s!"ok ringvar-cw{fl}" else s!"ok ringvar-ccw{fl}"
     | _, _, _ => "skip non-finite"
 
 def sqrtExact? (x : Q) : Option Q :=
@@ -485,13 +580,25 @@ def handleDist (inp out : Toks) : String :=
               let exClose := !twinFar
               if !ok then (if twinFar then "skip rounding-sensitive" else s!"propfail distance-min {kindTag gq}") else
               -- index: the sub-geometry it names attains the minimum
+              -- … and it is the FIRST one doing so.  Exact ties (and near-ties) may be ordered differently by float
+              -- rounding: that is rounding sensitivity of the MODEL (index of the Float twin ≠ index of the exact
+              -- instance), never judged from the implementation's answer.
+              let okTag := s!"ok dist {kindTag gq}{if mn == 0 then "+on" else ""}"
+              let exIdx := (distanceFromWithIndex sqrtQ pq gq).2
+              let first (tag : String) : String :=
+                match specIndex pq gq with
+                | none => tag
+                | some si =>
+                  if idx == si then tag
+                  else if tw.2 != exIdx then "skip rounding-sensitive"
+                  else s!"propfail index-first-min {kindTag gq}"
               (match subAtoms pq gq with
-               | none => s!"ok dist {kindTag gq}{if mn == 0 then "+on" else ""}"
+               | none => first okTag
                | some subs =>
                  if idx < 0 || idx.toNat ≥ subs.length then "propfail index-range" else
                  (match minQ? (subs.getD idx.toNat []) with
                   | some a =>
-                    if close m (sqrtQ a) sd then s!"ok dist {kindTag gq}{if mn == 0 then "+on" else ""}"
+                    if close m (sqrtQ a) sd then first okTag
                     else if exClose then "propfail index-attains-min" else "skip rounding-sensitive"
                   | none => "propfail index-attains-min empty-member")))
          | none, _, _ => "skip non-finite-input"
